@@ -236,6 +236,19 @@ func checkC10(c *Ctx) {
 				}
 			}
 		}
+		if !okUse && consumeUndecided == "" && strings.Contains(detUse, "derive") {
+			// the body read through a reader object (a struct that keeps a stream in a field
+			// and is used through its methods): the value flow through it is not followed
+			for _, g := range c.cone(ru) {
+				instrsOf(g, func(i ssa.Instruction) {
+					if st, ok := i.(*ssa.Store); ok {
+						if _, isFA := st.Addr.(*ssa.FieldAddr); isFA && (isStreamType(ir.StripIface(st.Val).Type()) || isStreamType(st.Val.Type())) {
+							consumeUndecided = "the certificate body is read through a reader object (" + c.IPos(st) + ")"
+						}
+					}
+				})
+			}
+		}
 		if consumeUndecided != "" {
 			c.R.Infof("G1.consume", name(ru), "declared-length-only", c.Pos(ru.Pos()), "not decided for this shape: "+consumeUndecided+" (G12.exact still excludes read-ahead consumers on the stream)")
 		} else {
